@@ -459,6 +459,58 @@ T = {
     needs="a restart (or different query traffic) between the first lookup of a denom and a later transaction that looks it up again; replicas compared on gas used / results",
     caught_by="C19.replicas_agree in mode c19 (gas used per tx is part of what the replicas are compared on)",
     history="caught at first run"),
+ "C02-5": dict(
+    change="x/amm/keeper/pool_share.go MintPoolShareToAccount: returns right after minting when the share denom's asset-profile entry has commit_enabled=false",
+    needs="somebody registers the NEXT pool's share denom with commitments off (MsgAddEntry is permissionless) before the pool exists; the pool is then created and joined: liquid, uncustodied shares",
+    caught_by="C02.shares_agree in scenario c02-preregistered-share-denom",
+    history="MISSED at first twice over: no history created a pool after a stranger's MsgAddEntry (scenario added), and the driver examined only share denoms that somebody had committed "
+            "(shares nobody committed are exactly the defect): the driver's denom list now includes every share denom in the supply or in a pool's total; caught since"),
+ "C05-5": dict(
+    change="x/amm/types/pool_exit_pool.go processExitPool: DecreaseLiquidity (rejects only negative balances) instead of the per-asset update that also rejected zero",
+    needs="a single-denom exit from an oracle pool whose value equals exactly the whole reserve of that denom",
+    caught_by="C05.oracle_exit_never_empty in mode c05",
+    history="caught at first run"),
+ "C06-5": dict(
+    change="stablestake Bond writes TotalValue after its hooks from the copy read at the top; leveragelp GetPositionsForAddress settles interest (two cooperating sites)",
+    needs="the bonder owns a leveraged position with unsettled interest and it is the address's first hooked action of the day (tier portfolio)",
+    caught_by="C06.vault_equation in hist mode",
+    history="caught at first run"),
+ "C09-5": dict(
+    change="x/perpetual/keeper/pool_health.go CheckMinimumCustodyAmt: the first (liabilities) instead of the second (custody) result of GetPerpetualPoolBalances",
+    needs="a pool whose custody of one asset is a large share of the amm balance, then an exit, swap or open that leaves less than the custody",
+    caught_by="C09.custody_backed in the saturation scenario and whale histories",
+    history="caught at first run"),
+ "C13-5": dict(
+    change="x/amm/keeper/apply_join_pool_state_change.go: returns before the hooks when the treasury cannot pay the whole bonus",
+    needs="a single-sided join of the under-weight asset into an oracle pool beyond the weight threshold with an empty treasury: masterchef's deposit hook never runs",
+    caught_by="C13.block_credit and C13.solvent in hist mode",
+    history="caught at first run"),
+ "C14-5": dict(
+    change="x/commitment/types/commitments.go VestedSoFar: an int64 fast path whose product amount x elapsed blocks wraps",
+    needs="a vesting whose amount fits 64 bits while amount x elapsed blocks does not",
+    caught_by="C14.complete in mode c14",
+    history="MISSED at first (amounts were below 2^40 or above 2^64); amounts between 2^41 and 2^63 and at the edges of the 64-bit range added; caught since"),
+ "C15-5": dict(
+    change="x/amm/keeper/keeper_join_pool_no_swap.go: the REQUESTED share amount is minted instead of the computed one (non-oracle pools)",
+    needs="a join of a non-oracle pool whose requested shares differ from what the deposit is worth (single-sided join, or amounts that do not map to whole tokens)",
+    caught_by="C15.share_paired in hist mode",
+    history="caught at first run (by the clause added in round 4)"),
+ "C16-5": dict(
+    change="x/oracle/oracle.go handleOraclePacket: the BandChain answer is matched with the LAST acknowledged request instead of the request id it carries",
+    needs="two BandChain requests in flight with different symbol lists of the same length, the answer to the older one delivered after the newer was acknowledged",
+    caught_by="C16.newest in mode c16 (BandChain acknowledgement and answer packets through the IBC callbacks)",
+    history="MISSED at first (the oracle model and harness covered the feeders' messages only); the BandChain path is now modelled (bandAck / bandAnswer, theorems band_answer_writes, "
+            "band_prices_shape, band_ack_registry) and driven with several requests in flight and late answers; caught since"),
+ "C18-5": dict(
+    change="x/amm/keeper/route_exact_amount_out.go: the recover guard moved below the estimation step",
+    needs="an exact-out request queued against a very unevenly weighted pool, then an exit in the same block that leaves the out-side barely above the request: the power routine overflows in end-block",
+    caught_by="C18.block_ok in scenario c18-exact-out-on-shrunk-pool",
+    history="MISSED at first (no pool of the standard world has an exponent large enough to overflow); scenario with a 19:1 pool added; caught since"),
+ "C20-5": dict(
+    change="x/tradeshield/keeper/pending_perpetual_order.go RemovePendingPerpetualOrder: also decrements the counter that AppendPendingPerpetualOrder uses as the next id",
+    needs="two owners with pending perpetual orders, the earlier one removed, then a new order while the later one is still pending",
+    caught_by="C20.cancel_returns_all in hist mode; the order-id correspondence (every pending id below the counter)",
+    history="caught at first run"),
 }
 
 root = os.path.join(os.path.dirname(os.path.dirname(os.path.abspath(__file__))), "seeded")
